@@ -544,9 +544,25 @@ class Intervals:
                 cur, hops = pl[0], 0
                 while hops < 4:
                     d = self.du.single_def(cur)
-                    if not (d and d[0] == "assign" and d[4]["k"] == "use" and d[4]["op"]["k"] == "copy"):
+                    if not (d and d[0] == "assign" and d[4]["k"] == "use" and d[4]["op"]["k"] in ("copy", "move")):
                         break
                     q = flow.op_place(d[4]["op"])
+                    rawp = d[4]["op"]["place"]
+                    if q and (q[1] != () or any(e["k"] == "deref" for e in rawp["p"])):
+                        # a copy of a member (`(opt as Some).0`), possibly read through a reference to it: the member itself is
+                        # what was compared, as long as its owner is assigned only once
+                        owner, path = q
+                        if rawp["p"] and rawp["p"][0]["k"] == "deref" and len(rawp["p"]) == 1:
+                            rd_ = self.du.single_def(rawp["l"])
+                            if rd_ and rd_[0] == "assign" and rd_[4]["k"] == "ref":
+                                owner, path = flow.norm_place(rd_[4]["place"])
+                            else:
+                                break
+                        if path and len(self.du.defs.get(owner, [])) == 1:
+                            key = ("i", owner) + tuple(str(x) for x in path)
+                            prev = st.get(key)
+                            st[key] = n if prev is None or prev.meet(n).empty() else prev.meet(n)
+                        break
                     nd = len(self.du.defs.get(q[0], [])) if q else 0
                     if not q or q[1] != () or not ((q[0] <= self.body.arg_count and nd == 0) or nd == 1):
                         break
